@@ -273,6 +273,13 @@ def run(chk):
         chk.sample(runner.describe(runner.observations[0]))
     finally:
         stack.close()
+    # enforce-mode rules that deny everybody, and the task holding them dies: still nothing is relayed
+    for first in ("imds", "ws-elevated"):
+        for ob in pipe.rules_lookup_fails(binp, chk.count, first):
+            chk.case(nontrivial_key=("rules-lookup-fails", first, ob["label"], ob["elevated"], ob["actor"], ob["status"]))
+            if ob["upstream_bytes"]:
+                chk.violation("enforce-mode denial was not a 403 without relay", ob, expected="an error status, no upstream bytes",
+                              observed=(ob["status"], ob["upstream_bytes"]))
     if chk.counts.get("sequences_with_repeated_denials", 0) == 0:
         chk.broken.append({"kind": "gate", "name": "generator sanity", "why": "no sequence with repeated identical denials"})
     chk.coverage["rule"] = ("request sequences (8-30 requests, several identities, many identical denials) per mode x endpoint, every "
